@@ -29,7 +29,7 @@ type staticCase struct {
 	ETag       bool   `json:"etag,omitempty"`
 	Headers    bool   `json:"expires_cachecontrol,omitempty"`
 	CustomFS   bool   `json:"custom_filesystem,omitempty"` // FileSystem option instead of Directory
-	Fault      string `json:"fault,omitempty"`             // "" | open | stat | index-open | index-stat
+	Fault      string `json:"fault,omitempty"`             // "" | open | stat | index-open | index-stat | stat-oversize (Stat reports 32 bytes more than the file holds: no failure, the file is served as it is)
 	Method     string `json:"method"`
 	Path       core.B `json:"path"`
 	INM        string `json:"if_none_match,omitempty"` // "" | match | other | formula (the tag the middleware's own formula yields for whatever the request path denotes - a file: its real tag; a directory: a tag no response ever carried, which must not match anything)
@@ -179,6 +179,20 @@ type statFailFile struct{ http.File }
 
 func (statFailFile) Stat() (fs.FileInfo, error) { return nil, errors.New("injected stat failure") }
 
+// oversizeFile reports a size larger than what the file holds (as files of sysfs/procfs do, and as any file does
+// that is truncated between Stat and read): what is sent is still what the file holds.
+type oversizeFile struct{ http.File }
+type oversizeInfo struct{ fs.FileInfo }
+
+func (i oversizeInfo) Size() int64 { return i.FileInfo.Size() + 32 }
+func (f oversizeFile) Stat() (fs.FileInfo, error) {
+	fi, err := f.File.Stat()
+	if err != nil || fi.IsDir() {
+		return fi, err
+	}
+	return oversizeInfo{fi}, nil
+}
+
 func (f faultyFS) Open(name string) (http.File, error) {
 	isIndex := isIndexName(path.Clean("/"+name), f.index) // the file the name denotes, however it is spelt
 	switch f.mode {
@@ -195,6 +209,9 @@ func (f faultyFS) Open(name string) (http.File, error) {
 	}
 	if f.mode == "stat" || (f.mode == "index-stat" && isIndex) {
 		return statFailFile{file}, nil
+	}
+	if f.mode == "stat-oversize" {
+		return oversizeFile{file}, nil
 	}
 	return file, nil
 }
@@ -434,10 +451,13 @@ func genStaticCase(rng *rand.Rand) *staticCase {
 		c.Method = []string{"HEAD", "POST", "PUT", "OPTIONS", "get", "DELETE", "", "PATCH"}[rng.Intn(8)]
 	}
 	if rng.Intn(12) == 0 {
-		c.Fault = []string{"open", "stat", "index-open", "index-stat"}[rng.Intn(4)]
+		c.Fault = []string{"open", "stat", "index-open", "index-stat", "stat-oversize"}[rng.Intn(5)]
 	}
 	if c.ETag && rng.Intn(3) == 0 {
 		c.INM = []string{"match", "other", "formula"}[rng.Intn(3)]
+		if c.Fault == "stat-oversize" && c.INM == "formula" {
+			c.INM = "match" // the formula is computed from what Stat reports; here that is not what the disk says
+		}
 	}
 	normPrefix := ""
 	if c.Prefix != "" {
@@ -550,6 +570,12 @@ func judgeStatic(w *core.W, fx *fixture, c *staticCase, classes func(string)) {
 	f.NotFound(chain)
 	for _, m := range routerMethods {
 		f.Route(m, "/{**}", []flamego.Handler{chain})
+	}
+	// routes spelled exactly like paths of files: Static runs first and serves the file; what the router would have
+	// done with the path is none of its business
+	for _, p := range []string{"/a.txt", "/dir/b", "/static/a.txt", "/index.html", "/empty.txt", "/dir/", "/dir", "/s/t/u.txt", "/static/static/a.txt", "/", "/noidx/", "/app.js"} {
+		f.Get(p, chain)
+		f.Head(p, chain)
 	}
 	want := staticOracle(fx, c)
 	hdr := http.Header{}
@@ -896,7 +922,7 @@ func runC16(r *core.Run) {
 	for _, k := range []string{"volatile:removed", "volatile:becomes-directory", "volatile:rewritten", "volatile:root-relinked"} {
 		r.GateCounter(k, 100)
 	}
-	for _, k := range []string{"class:traversal-in", "class:traversal-out", "class:look-alike", "class:dir-no-slash", "class:dir-slash", "class:dir-no-index-or-missing", "class:file", "class:missing", "class:NUL", "class:other-method", "outcome:file", "outcome:redirect", "outcome:not-modified", "outcome:silent", "fault:open", "fault:stat", "fault:index-open", "fault:index-stat", "directory-option-unset", "directory-name-with-odd-characters", "requests-with-a-negotiation-header", "options-slice-overwritten-after-creation", "filesystem:io/fs", "if-none-match:formula-tag-of-a-directory"} {
+	for _, k := range []string{"class:traversal-in", "class:traversal-out", "class:look-alike", "class:dir-no-slash", "class:dir-slash", "class:dir-no-index-or-missing", "class:file", "class:missing", "class:NUL", "class:other-method", "outcome:file", "outcome:redirect", "outcome:not-modified", "outcome:silent", "fault:open", "fault:stat", "fault:index-open", "fault:index-stat", "fault:stat-oversize", "directory-option-unset", "directory-name-with-odd-characters", "requests-with-a-negotiation-header", "options-slice-overwritten-after-creation", "filesystem:io/fs", "if-none-match:formula-tag-of-a-directory"} {
 		r.GateCounter(k, 30)
 	}
 	r.Gate("distinct_nontrivial", r.NonTrivialCount(), 5000)
